@@ -54,6 +54,8 @@ CLAIM = (
     "and masks every NaN; every stretch composed with its declared inverse is the identity on a 101-point grid. "
     "Every history of 2 (quick) or 3 (thorough) calls of ONE object on arrays with different ranges returns, call by call, what a fresh object returns "
     "(limits taken at call time follow the array of the call, limits frozen from data= stay frozen, process-wide default instances included). "
+    "Every numeric argument (limits, centre, half range, quantiles, stretch parameters) spelled as NumPy scalars of every integer width / float precision, 0-d arrays and torch scalars "
+    "is either rejected or behaves like the Python number, through CustomNormalization with and without data= and through show_2d. "
     "A size x pedestal family (element counts just below / at / just above 2**16, 2**20 and, thorough, 2**22; int32/int64/float64 data of small spread on "
     "pedestals up to 2**40 / 1e9) repeats the clauses on whole large arrays, so a behaviour that switches on the array size or loses the offset is seen. "
     "Exploration is the right level: the property quantifies over configurations and data kinds, not over histories."
@@ -349,11 +351,11 @@ def observe(a, mode, kw):
     return obs
 
 
-def measure(a, mode, kw, fin=None, obs=None):
+def measure(a, mode, kw, fin=None, obs=None, tol=None):
     """Observations + deviations from each relation. Returns (obs, dev, problems) where problems is a list of
     (relation, message) judged with the module tolerances. `obs` may be a ready-made observation (history part)."""
     fin = fin if fin is not None else finite_exact(a)
-    tol = TOL32 if a.dtype == np.float32 else TOL64
+    tol = (TOL32 if a.dtype == np.float32 else TOL64) if tol is None else tol
     obs = observe(a, mode, kw) if obs is None else obs
     probs = []
     if "exc" in obs:
@@ -1216,6 +1218,238 @@ def size_item(d, seed=0, want_dev=False):
     return t
 
 
+# ----------------------------------------------------------------------------- SPELLING family of the numeric arguments
+# Every limit-like and parameter-like argument of the public normalisation API (vmin, vmax, vcenter, half_range, lower_quantile,
+# upper_quantile, power, logarithmic_index, asinh_linear_range) spelled as Python int / float, NumPy integer scalars of every width and
+# signedness (what img.min() / img.max() return), NumPy float16/32/64, 0-d arrays and torch scalars — through every entry point the check
+# covers: CustomNormalization called without data= (limits taken at call time), with data= (limits frozen) and show_2d(vmin=, vmax=, ...).
+# Only spellings that hold the value EXACTLY are used, so the differential oracle is sharp: a spelling is either REJECTED (an exception;
+# counted) or gives the result of the Python-number spelling (tolerance TOL64, TOL32 for float32 images: observed worst on HEAD 2.4e-7 for
+# float32 images where a float64 limit promotes the arithmetic, 0 otherwise) AND satisfies the usual clauses (limits -> 0 and 1, affine for
+# the linear stretch, monotone, [0,1], NaN masked) judged with the Python-number configuration. Integer images span more than the positive
+# range of their dtype (signed) or sit on vmin > 0 (unsigned), so arithmetic on the limits in their own dtype would wrap.
+SPELL_INT_DTYPES = ["int8", "int16", "int32", "int64", "uint8", "uint16", "uint32", "uint64"]
+SPELL_FLOAT_DTYPES = ["float16", "float32", "float64"]
+SPELL_IMAGES = SPELL_INT_DTYPES + ["float32", "float64"]
+
+
+def spelling_image(dtname, seed):
+    """(3,4) image: signed dtypes span 1.6x the positive range, unsigned ones sit on a pedestal; forced extremes and inner marks."""
+    dt = np.dtype(dtname)
+    rng = np.random.default_rng([seed, 20, 909, SPELL_IMAGES.index(dtname)])
+    if dt.kind == "i":
+        M = int(np.iinfo(dt).max)
+        lo, hi = -(M // 5) * 4, (M // 5) * 4
+    elif dt.kind == "u":
+        M = int(np.iinfo(dt).max)
+        lo, hi = M // 5, (M // 5) * 4 + M // 10
+    else:
+        lo, hi = -1024, 3072
+    q1, q3 = lo + (hi - lo) // 4, lo + 3 * ((hi - lo) // 4)
+    if dt.kind == "f":
+        vals = [float(x) for x in rng.integers(lo, hi, size=12)]
+    else:
+        vals = [int(x) for x in rng.integers(lo, hi, size=12, dtype=np.int64 if dt.kind == "i" else np.uint64)]
+    vals[0], vals[11], vals[3], vals[7] = lo, hi, q1, q3
+    a = np.array(vals, dtype=dt).reshape(3, 4)
+    return a, {"min": lo, "max": hi, "q1": q1, "q3": q3}
+
+
+def number_spellings(v, own_dtype=None):
+    """{label: (kind, object)} — every spelling that holds the Python number v exactly. kind is the class label."""
+    out = {}
+    is_int = float(v) == int(v)
+
+    def add(label, kind, make):
+        try:
+            with warnings.catch_warnings():
+                warnings.simplefilter("ignore")
+                with np.errstate(all="ignore"):
+                    obj = make()
+            back = obj.item() if hasattr(obj, "item") else obj
+            if back == v and (not isinstance(back, float) or math.isfinite(back)):
+                out[label] = (kind, obj)
+        except Exception:
+            pass
+
+    if is_int:
+        add("python_int", "python", lambda: int(v))
+        for dn in SPELL_INT_DTYPES:
+            kind = "np_signed_int" if dn.startswith("int") else "np_unsigned_int"
+            add("np." + dn, kind, lambda dn=dn: np.dtype(dn).type(int(v)))
+        if own_dtype is not None and np.dtype(own_dtype).kind in "iu":
+            kind = "np_signed_int" if np.dtype(own_dtype).kind == "i" else "np_unsigned_int"
+            add("0d_array:" + own_dtype, "0d_array_" + kind[3:], lambda: np.array(int(v), dtype=own_dtype))
+    for dn in SPELL_FLOAT_DTYPES:
+        add("np." + dn, "np_" + dn, lambda dn=dn: np.dtype(dn).type(v))
+    add("0d_array:float64", "0d_array_float", lambda: np.array(float(v)))
+    try:
+        import torch
+
+        if is_int:
+            for tn in ("int8", "int16", "int32", "int64", "uint8"):
+                add("torch." + tn, "torch_int", lambda tn=tn: torch.tensor(int(v), dtype=getattr(torch, tn)))
+        for tn in ("float32", "float64"):
+            add("torch." + tn, "torch_float", lambda tn=tn: torch.tensor(float(v), dtype=getattr(torch, tn)))
+    except Exception:
+        pass
+    return out
+
+
+def spelling_tolerance(label):
+    """A number spelled in a narrower float type makes the library compute with that type's precision (NumPy scalars are not 'weak',
+    torch scalars compute in float32). Observed worst on HEAD: float16 spellings 3.1e-4 (asinh/log parameters), float32 and torch
+    spellings 8.9e-9; the smallest effect this family is after (integer wrap-around of the limits) is >= 0.35."""
+    if "float16" in label:
+        return 6.5e-3
+    if "float32" in label or label.startswith("torch."):
+        return TOL32
+    return 0.0
+
+
+def spelling_configs(dtname, marks):
+    """(param group, python-number kwargs, names of the spelled parameters) for one image."""
+    lo, hi, q1, q3 = marks["min"], marks["max"], marks["q1"], marks["q3"]
+    half = (hi - lo) // 2
+    cfgs = []
+    for st, skw in (("linear", {}), ("logarithmic", {"logarithmic_index": 1000.0})):
+        b = {"interval_type": "manual", "stretch_type": st}
+        b.update(skw)
+        cfgs += [
+            ("limits", dict(b, vmin=lo, vmax=hi), ("vmin", "vmax")),
+            ("limits", dict(b, vmin=q1, vmax=q3), ("vmin", "vmax")),
+            ("limits", dict(b, vmin=lo, vmax=hi), ("vmin",)),
+            ("limits", dict(b, vmin=lo, vmax=hi), ("vmax",)),
+            ("limits", dict(b, vmin=q1), ("vmin",)),
+            ("limits", dict(b, vmax=q3), ("vmax",)),
+        ]
+    c = {"interval_type": "centered", "stretch_type": "linear"}
+    cfgs += [
+        ("vcenter", dict(c, vcenter=q3), ("vcenter",)),
+        ("vcenter+half_range", dict(c, vcenter=q3, half_range=half), ("vcenter", "half_range")),
+        ("vcenter+half_range", dict(c, vcenter=q1, half_range=half), ("vcenter", "half_range")),
+        ("vcenter+half_range", dict(c, vcenter=q3, half_range=half), ("half_range",)),
+    ]
+    if dtname in ("int16", "uint8", "float64"):
+        for ql, qh in ((0, 1), (0.25, 0.75), (0, 0.75), (0.25, 1)):
+            cfgs.append(("quantiles", {"interval_type": "quantile", "stretch_type": "linear", "lower_quantile": ql, "upper_quantile": qh}, ("lower_quantile", "upper_quantile")))
+        m = {"interval_type": "manual"}
+        for pw in (0.5, 2):
+            cfgs.append(("power", dict(m, stretch_type="power", power=pw), ("power",)))
+        for a_ in (1, 1000):
+            cfgs.append(("logarithmic_index", dict(m, stretch_type="logarithmic", logarithmic_index=a_), ("logarithmic_index",)))
+        for a_ in (0.125, 1):
+            cfgs.append(("asinh_linear_range", dict(m, stretch_type="asinh", asinh_linear_range=a_), ("asinh_linear_range",)))
+    return cfgs
+
+
+def spelling_item(item, seed=0):
+    dtname = item
+    a, marks = spelling_image(dtname, seed)
+    fin = finite_exact(a)
+    tol0 = TOL32 if a.dtype == np.float32 else TOL64
+    t = Tally()
+    for group, kw_py, spelled in spelling_configs(dtname, marks):
+        sp_per_param = [number_spellings(kw_py[pn], own_dtype=dtname) for pn in spelled]
+        labels = sorted(set.intersection(*[set(d) for d in sp_per_param]))  # the same spelling for every spelled parameter
+        for mode in MODES:
+            ref = observe(a, mode, kw_py)
+            for lab in labels:
+                kind = sp_per_param[0][lab][0]
+                if lab in ("python_int",) and all(isinstance(kw_py[pn], int) for pn in spelled):
+                    continue  # that IS the reference spelling
+                kw_sp = dict(kw_py)
+                for pn, d in zip(spelled, sp_per_param):
+                    kw_sp[pn] = d[lab][1]
+                alt = observe(a, mode, kw_sp)
+                case = {"part": "spelling", "image": dtname, "group": group, "kwargs": {k: (v if not isinstance(v, (int, float)) or isinstance(v, bool) else v) for k, v in kw_py.items()}, "spelled": list(spelled), "spelling": lab, "mode": mode}
+                t.extra["spelling_points"] += 1
+                cls = {"relation": None, "mode": mode, "interval": interval_label(kw_py), "param": group, "spelling": kind, "via": "spelling"}
+                shown = f"{dtname}(3,4) image [{marks['min']} .. {marks['max']}] mode={mode} {kw_py} with {', '.join(spelled)} spelled as {lab}"
+                if "exc" in ref:
+                    t.fail(dict(cls, relation="raises", spelling="python"), case, f"{shown}: the Python-number spelling itself raised {ref['exc']}")
+                    t.case(key=None, nontrivial=False, outcome=("spelling", "ref-exc"))
+                    break
+                if "exc" in alt:
+                    t.extra["spelling_rejected"] += 1
+                    t.extra["spelling_rejected:" + kind] += 1
+                    t.case(key=None, nontrivial=False, outcome=("spelling", group, kind, mode, "rejected", alt["exc"][:40]))
+                    continue
+                t.extra["spelling_accepted"] += 1
+                t.extra["spelling_accepted:" + kind] += 1
+                tol = max(tol0, spelling_tolerance(lab))
+                _, _, probs = measure(a, mode, kw_py, fin, obs=alt, tol=tol)
+                same = alt["shape"] == ref["shape"] and np.array_equal(alt["mask"], ref["mask"])
+                ddev = 0.0
+                if same:
+                    with np.errstate(all="ignore"):
+                        dd = np.abs(alt["data"] - ref["data"])[~ref["mask"]]
+                    ddev = float(np.max(np.where(np.isnan(dd), np.inf, dd))) if dd.size else 0.0
+                if not same or not ddev <= tol:
+                    probs.append(("spelling_equals_python_number", f"result {np.round(np.where(alt['mask'], np.nan, alt['data']), 4).tolist()} differs from the Python-number spelling's {np.round(np.where(ref['mask'], np.nan, ref['data']), 4).tolist()}"))
+                if probs:
+                    probs.sort(key=lambda p_: (RELATION_ORDER + ["spelling_equals_python_number"]).index(p_[0]))
+                    more = f" [also: {', '.join(r for r, _ in probs[1:])}]" if len(probs) > 1 else ""
+                    t.fail(dict(cls, relation=probs[0][0]), case, f"{shown}: {probs[0][1]}{more}")
+                t.case(key=("spelling", dtname, group, str(sorted(kw_py.items(), key=str)), spelled, lab, mode), nontrivial=True, outcome=("spelling", group, kind, mode, "accepted", not probs))
+    return t
+
+
+def spelling_display_item(item, seed=0):
+    """show_2d(img, vmin=<spelled>, vmax=<spelled>) and quantile keywords: displayed gray levels against the Python-number spelling."""
+    dtname = item
+    a, marks = spelling_image(dtname, seed)
+    fin = finite_exact(a)
+    t = Tally()
+    points = [("limits", {"vmin": marks["min"], "vmax": marks["max"]}), ("limits", {"vmin": marks["q1"], "vmax": marks["q3"]})]
+    if dtname in ("int16", "uint8", "float64"):
+        points.append(("quantiles", {"lower_quantile": 0.25, "upper_quantile": 0.75}))
+    for group, kw_py in points:
+        names = list(kw_py)
+        sp_per = [number_spellings(kw_py[n], own_dtype=dtname) for n in names]
+        labels = sorted(set.intersection(*[set(d) for d in sp_per]))
+        try:
+            ref = display_once(a, None, dict(kw_py))[..., 0]
+        except Exception as e:
+            t.fail({"relation": "raises", "mode": "display", "param": group, "spelling": "python", "via": "spelling"}, {"part": "spelling-display", "image": dtname, "kwargs": kw_py, "spelling": "python"}, f"show_2d({dtname} image, **{kw_py}) raised {type(e).__name__}: {e}")
+            continue
+        lo_e, hi_e = expected_limits(dict({"interval_type": "manual"} if group == "limits" else {"interval_type": "quantile"}, **kw_py), fin)
+        for lab in labels:
+            kind = sp_per[0][lab][0]
+            if lab == "python_int":
+                continue
+            kw_sp = {n: d[lab][1] for n, d in zip(names, sp_per)}
+            case = {"part": "spelling-display", "image": dtname, "group": group, "kwargs": kw_py, "spelling": lab}
+            cls = {"relation": None, "mode": "display", "interval": "display:kw", "param": group, "spelling": kind, "via": "spelling"}
+            t.extra["spelling_display_points"] += 1
+            try:
+                img = display_once(a, None, kw_sp)
+            except Exception as e:
+                t.extra["spelling_rejected"] += 1
+                t.extra["spelling_rejected:" + kind] += 1
+                t.case(key=None, nontrivial=False, outcome=("spelling-display", group, kind, "rejected", type(e).__name__))
+                continue
+            t.extra["spelling_accepted"] += 1
+            t.extra["spelling_accepted:" + kind] += 1
+            g = img[..., 0]
+            msg = None
+            if g.shape != ref.shape or float(np.max(np.abs(g - ref))) > DISPLAY_QUANT:
+                msg = ("spelling_equals_python_number", f"gray levels {np.round(g, 3).tolist()} differ from the Python-number spelling's {np.round(ref, 3).tolist()}")
+            else:
+                gf = g.ravel()
+                for (i, v) in fin:
+                    if v <= lo_e and gf[i] != 0.0:
+                        msg = ("lower_limit_to_0", f"pixel {float(v)!r} <= lower limit shown at gray {gf[i]!r}")
+                        break
+                    if v >= hi_e and gf[i] != 1.0:
+                        msg = ("upper_limit_to_1", f"pixel {float(v)!r} >= upper limit shown at gray {gf[i]!r}")
+                        break
+            if msg:
+                t.fail(dict(cls, relation=msg[0]), case, f"show_2d({dtname}(3,4) image [{marks['min']} .. {marks['max']}], {', '.join(f'{n}={kw_py[n]!r}' for n in names)} spelled as {lab}): {msg[1]}")
+            t.case(key=("spelling-display", dtname, group, str(kw_py), lab), nontrivial=True, outcome=("spelling-display", group, kind, "accepted", msg is None))
+    return t
+
+
 # ----------------------------------------------------------------------------- stretch o inverse
 def stretch_objects():
     cn = _lib()
@@ -1365,6 +1599,14 @@ def run(ctx):
     if ctx.tally.extra["size_family_points"] != len(sdesc) * len(SIZE_INTERVALS) * len(SIZE_STRETCHES) * len(MODES) or ctx.tally.extra["size_family_points_above_2^20_elements"] < 100:
         raise Broken("size x pedestal family not enumerated completely")
 
+    # SPELLING family of the numeric arguments
+    ctx.pmap(spelling_item, list(SPELL_IMAGES), chunk=1, label="spellings", seed=ctx.seed)
+    if have_show:
+        ctx.pmap(spelling_display_item, list(SPELL_IMAGES), chunk=1, label="spellings-show_2d", seed=ctx.seed)
+    exs = ctx.tally.extra
+    if exs["spelling_points"] < 2000 or exs["spelling_accepted"] < 1000 or exs["spelling_accepted:np_signed_int"] < 100 or exs["spelling_accepted:np_unsigned_int"] < 100:
+        raise Broken("spelling family degenerate")
+
     worst = inverse_identities(ctx.fail, ctx.tally)
     ctx.say(f"stretch/inverse identities: {ctx.tally.extra['inverse_identity_points']} compositions, worst deviation {worst:.3g}")
 
@@ -1385,6 +1627,13 @@ def run(ctx):
             "presets": names,
             "resolve_forms": [f[0] for f in resolve_forms([(0, Fraction(0)), (1, Fraction(1))])] if resolve is not None else [],
             "display_norms": (names + DISPLAY_EXTRA) if ditems else [],
+            "spelling_family": {
+                "parameters": ["vmin", "vmax", "vcenter", "half_range", "lower_quantile", "upper_quantile", "power", "logarithmic_index", "asinh_linear_range"],
+                "spellings": "python int/float; np.int8/16/32/64, np.uint8/16/32/64; np.float16/32/64; 0-d arrays (image dtype, float64); torch int8/16/32/64/uint8/float32/float64 scalars — only those that hold the value exactly",
+                "images": [f"{d} (3,4): signed span 1.6x the positive range, unsigned on a pedestal" for d in SPELL_IMAGES],
+                "entry_points": ["CustomNormalization without data=", "CustomNormalization with data=", "show_2d(vmin=, vmax=) / (lower_quantile=, upper_quantile=)"],
+                "oracle": "rejected (exception, counted) or equal to the Python-number spelling and satisfying the usual clauses",
+            },
             "size_family": {
                 "element_counts": "just below / at / just above 2**p as 2-D (r-1,c),(r,c),(r+1,c) and 1-D (2**p,),(2**p+1,), p in " + str(SIZE_POWERS_QUICK if quick else SIZE_POWERS_THOROUGH) + ("; quick keeps (r,c),(r+1,c) for p=20" if quick else ""),
                 "shapes": sorted({tuple(d_["shape"]) for d_ in sdesc}),
@@ -1421,6 +1670,16 @@ def replay(ctx, case):
     if "inverse" in case:
         t = Tally()
         inverse_identities(lambda cls, c, msg: (ctx.fail(cls, c, msg) if c == case else None), t)
+        return
+    if case.get("part") in ("spelling", "spelling-display"):
+        t = spelling_item(case["image"], seed=ctx.seed) if case["part"] == "spelling" else spelling_display_item(case["image"], seed=ctx.seed)
+        from mc.harness import jsonable as _js
+
+        for f in t.fails:
+            if f["case"] == _js(case) or f["case"] == case:
+                print("  observed:", f["msg"])
+                ctx.fail(f["cls"], case, f["msg"])
+        print("  expected: the spelling is rejected, or it gives the result of the Python-number spelling and satisfies the usual clauses")
         return
     if case.get("part") == "size":
         d = case["array"]
